@@ -164,6 +164,32 @@ theorem C15_no_livelock (tbl) (hd : Distinct tbl) (hf : Fresh tbl) (n : Nat) (ls
   have := (internal_run_bound tbl hd hf n ls s s' hr hb hall hrun).1
   omega
 
+/-! ### non-vacuity of the at-rest theorems: peer EOF with one Submit outstanding -/
+
+def tblT : Nat → Caller := fun i => { kind := .submit, seq := (i : Int) + 1, after := none }
+
+def scriptT : List Label :=
+  [.start 0, .check 0, .write 0, .writeRet 0, .transportEOF, .wPoll, .wRead, .wExit, .seeConnDone 0, .finish 0]
+
+theorem runT : ∃ s, run (init tblT) scriptT = some s ∧ (s.callers 0).pc = .done (.err .closed) ∧
+    s.connDone = true ∧ s.watch = .returned ∧ s.queueClosed = true ∧ (∀ j, j ≠ 0 → (s.callers j).pc = .idle) := by
+  simp [run, scriptT, step, init, tblT, setPc, upd, updI, predDone]
+  intro j hj; simp [hj]
+
+/-- the premises of `C15_all_returned_after_teardown` are satisfiable: peer EOF with one Submit outstanding -/
+example : ∃ s, ReachP tblT s ∧ Quiescent s ∧ s.connDone = true ∧ (s.callers 0).pc = .done (.err .closed) ∧ s.watch = .returned := by
+  obtain ⟨s, hrun, hpc, hc, hw, _, hidle⟩ := runT
+  refine ⟨s, ?_, ?_, hc, hpc, hw⟩
+  · refine reachP_run tblT scriptT _ s ReachP.init ?_ hrun
+    intro l hl
+    simp [scriptT] at hl
+    rcases hl with rfl | rfl | rfl | rfl | rfl | rfl | rfl | rfl | rfl | rfl <;> simp [AdmissibleP, Admissible, tblT]
+  · apply quiescent_of_returned s hw
+    intro j
+    by_cases hj : j = 0
+    · subst hj; exact Or.inr ⟨_, hpc⟩
+    · exact Or.inl (hidle j hj)
+
 /-! ## non-vacuity: the window the property names — an unsolicited PDU right after unbind_resp, nobody receiving -/
 def tblc : Nat → Caller := fun _ => { kind := .close, seq := 9, after := none }
 
